@@ -6,7 +6,7 @@ def plan(ctx):
     seed, tier = ctx["seed"], ctx["tier"]
     items = []
     if tier == "quick":
-        pools = [("mutation", 800), ("assignorder", 200)]
+        pools = [("mutation", 1200), ("assignorder", 400)]
         cap = 20.0
     else:
         pools = [("mutation", 6000), ("widemutation", 2000), ("assignorder", 1000)]
